@@ -11,6 +11,6 @@ for f in sorted(glob.glob(os.path.join(HERE, "propdefs", "C[0-9][0-9].py"))):
         print("warning: propdefs/%s.py failed to load: %s" % (pid, e), file=sys.stderr)
 
 # hook commits in /repo (guard: --cfg falconre_falcon_verif)
-HOOK_COMMITS = []
+HOOK_COMMITS = ["5e2d7b0", "40c2125", "9dda66b", "c144129"]
 # properties not claimed, with the reason (kept current by hand)
 NOT_APPLICABLE = {}
